@@ -458,3 +458,28 @@ Definition sweep_cuts (clamp : bool) (t : table) : bool :=
 Definition H_mixed : list op :=
   [OAppend (map blob4 [0; 1; 2]); OAppend [repeat 7 40; repeat 8 40; repeat 9 30]; OSync;
    OTruncTail 2; OAppend (map blob4 [6; 7]); OTruncHead 7; OSyncIndex; OAppend [repeat 5 33; []; blob4 9]].
+
+(* ---------- the head/index truncation loop of repair() ---------- *)
+(* When the head data file is at least as long as the last index entry says (which the flush-offset
+   discipline guarantees after repairIndex: data below the flush offset is durable), the loop never
+   touches the index or the metadata: it returns at once, or after truncating the dangling head. *)
+Lemma repair_loop_head_only fuel t last offsets csize f :
+  (1 <= fuel)%nat -> dget (efile last) (t_data t) = Some f -> eoff last <= csize ->
+  exists t',
+    repair_loop fuel t last offsets csize = Ok (t', last, offsets, eoff last) /\
+    t_index t' = t_index t /\ t_mcur t' = t_mcur t /\ t_msyn t' = t_msyn t /\ t_open t' = t_open t /\
+    (csize = eoff last -> t' = t) /\
+    (eoff last < csize -> t_data t' = dset (efile last) (f_trunc f (eoff last)) (t_data t)).
+Proof.
+  intros Hf Hd Hle. destruct fuel as [|k]; [lia|].
+  cbn [repair_loop].
+  destruct (N.eqb_spec (eoff last) csize) as [E|E].
+  - exists t. subst csize. repeat split; try reflexivity. intros; lia.
+  - destruct (N.ltb_spec (eoff last) csize) as [L|L]; [|lia].
+    unfold data_upd. rewrite Hd.
+    destruct (N.ltb_spec (eoff last) (eoff last)) as [L2|L2]; [lia|].
+    exists (w_data t (dset (efile last) (f_trunc f (eoff last)) (t_data t))).
+    split.
+    + destruct k; cbn [repair_loop]; rewrite N.eqb_refl; reflexivity.
+    + repeat split; try reflexivity. intros; lia.
+Qed.
